@@ -823,6 +823,175 @@ def _mesh_families(blocks: List[List[int]]) -> List[int]:
     return [find(i) for i in range(n)]
 
 
+
+# ----------------------------------------------------------------------------- point generators (round 6)
+PTS_DISKS = ["OneCoreDisk", "QuarterDisk", "HalfDisk", "FourCoreDisk"]
+PTS_WHAT = (
+    [f"sketch:{c}" for c in PTS_DISKS] + ["wrapped", "oval", "cyl:FourCoreDisk", "cyl:HalfDisk", "frustum", "grid"]
+    + [f"extr:{c}" for c in PTS_DISKS]
+)
+
+
+def gen_pts(rng: random.Random, what: str) -> dict:
+    """the point generators alone: one sketch / one lofted shape in a random placement, with the witnesses
+    (unit normal, cos pi/4, norms) the model needs taken from the implementation's own float arithmetic"""
+    c: Dict[str, Any] = {"kind": "Pts", "what": what}
+    c.update(gen_frame(rng, rng.random() < 0.1))
+    c["p"] = {
+        "r": rq(rng, 0.3, 2), "phi": rq(rng, 0, 6.25, 8), "nlen": rng.choice(["1", "1", "1/4", "5/2", "7"]),
+        "L": rq(rng, 0.2, 3), "r2": rq(rng, 0.2, 2), "rin": rng.choice(["1/4", "1/2", "3/4"]),
+        "D": rq(rng, 0.3, 3), "n": rng.randint(1, 4), "m": rng.randint(1, 4),
+        "g": [rq(rng, -2, 0), rq(rng, -2, 0), rq(rng, 0.25, 2), rq(rng, 0.25, 2)],
+    }
+    return c
+
+
+def run_pts(case: dict) -> dict:
+    import numpy as np
+
+    import classy_blocks as cb
+    from classy_blocks.construct.flat.sketches import disk as d
+    from classy_blocks.util import functions as f
+
+    fr, p, what = Frame(case), case["p"], case["what"]
+    x, y = polar(p["r"], p["phi"])
+    c, rp = fr.P(0, 0, 0), fr.P(x, y, 0)
+    n = fr.V(0, 0, 1) * fl(p["nlen"])
+    u = f.unit_vector(n)
+    h = float(np.cos(np.pi / 4))
+    out: Dict[str, Any] = {"what": what}
+    r3 = lambda v: ",".join(core.rat(float(t)) for t in v)  # noqa: E731
+    R = lambda t: core.rat(float(t))  # noqa: E731
+    kind, _, cls = what.partition(":")
+    quads, rim, normal = None, [], u
+    try:
+        if kind == "sketch":
+            sk = getattr(d, cls)(c, rp, n)
+            pts = sk.positions
+            out["req"] = f"c11.pts {cls} {r3(c)} {r3(rp)} {r3(u)} {R(h)} {R(sk.core_ratio)} {R(sk.diagonal_ratio)}"
+            quads = [list(map(int, q)) for q in sk.indexes]
+            rim = [(fc.point_array[i], c, float(np.linalg.norm(rp - c))) for fc in sk.shell for i in (1, 2)]
+        elif kind == "wrapped":
+            radius = fl(p["r"]) * fl(p["rin"]) * fr.s
+            sk = d.WrappedDisk(c, rp, radius, n)
+            pts = sk.positions
+            out["req"] = f"c11.wrapped {r3(c)} {r3(rp)} {r3(u)} {R(h)} {R(sk.diagonal_ratio)} {R(radius)} {R(f.norm(rp - c))}"
+            quads = [list(map(int, q)) for q in sk.indexes]
+            rim = [(fc.point_array[i], c, radius) for fc in sk.grid[1] for i in (1, 2)]
+        elif kind == "oval":
+            c2 = fr.P(-fl(p["D"]) * math.sin(fl(p["phi"])), fl(p["D"]) * math.cos(fl(p["phi"])), 0)
+            radius = fl(p["r"]) * fr.s
+            sk = d.Oval(c, c2, n, radius)
+            pts = sk.positions
+            out["req"] = f"c11.oval {r3(c)} {r3(c2)} {r3(u)} {R(h)} {R(sk.core_ratio)} {R(sk.diagonal_ratio)} {R(radius)} {R(f.norm(np.cross(u, c2 - c)))}"
+            quads = [list(map(int, q)) for q in sk.indexes]
+            rim = [(sk.faces[i].point_array[j], c, radius) for i in (6, 7, 8, 9) for j in (1, 2)]
+            rim += [(sk.faces[i].point_array[j], c2, radius) for i in (11, 12, 13, 14) for j in (1, 2)]
+        elif kind == "grid":
+            g = [fl(t) for t in p["g"]]
+            sk = cb.Grid([g[0], g[1], 0], [g[0] + g[2], g[1] + g[3], 0], p["n"], p["m"])
+            pts = np.concatenate([fc.point_array for fc in sk.faces])
+            out["req"] = f"c11.gridpts {R(g[0])} {R(g[1])} {R(g[0] + g[2])} {R(g[1] + g[3])} {p['n']} {p['m']}"
+            quads = [[4 * i, 4 * i + 1, 4 * i + 2, 4 * i + 3] for i in range(p["n"] * p["m"])]
+            normal = np.array([0.0, 0.0, 1.0])
+        else:
+            p2 = c + u * fl(p["L"]) * fr.s
+            if kind == "cyl":
+                sh = (cb.Cylinder if cls == "FourCoreDisk" else cb.SemiCylinder)(c, p2, rp)
+                s1 = sh.sketch_1
+                out["req"] = f"c11.cyl {cls} {r3(c)} {r3(p2)} {r3(rp)} {R(f.norm(p2 - c))} {R(h)} {R(s1.core_ratio)} {R(s1.diagonal_ratio)}"
+            elif kind == "frustum":
+                r2 = fl(p["r2"]) * fr.s
+                sh = cb.Frustum(c, p2, rp, r2)
+                s1 = sh.sketch_1
+                out["req"] = f"c11.frustum {r3(c)} {r3(p2)} {r3(rp)} {R(f.norm(p2 - c))} {R(h)} {R(s1.core_ratio)} {R(s1.diagonal_ratio)} {R(r2)} {R(f.norm(rp - c))}"
+            else:
+                s1 = getattr(d, cls)(c, rp, n)
+                amount = fl(p["L"]) * fr.s
+                sh = cb.ExtrudedShape(s1, amount)
+                out["req"] = f"c11.extr {cls} {r3(c)} {r3(rp)} {r3(u)} {R(h)} {R(s1.core_ratio)} {R(s1.diagonal_ratio)} {R(amount)}"
+            pts = np.concatenate([op.point_array for op in sh.operations])
+            out["hexes"] = len(sh.operations)
+    except Exception as e:  # a valid placement must be accepted
+        return {"build_error": type(e).__name__, "msg": str(e)[:300], "what": what}
+    out["pts"] = [_rat3(q) for q in pts]
+    out["quads"] = quads
+    out["normal"] = _rat3(normal)
+    out["rim"] = [[_rat3(a), _rat3(b), core.rat(float(r))] for a, b, r in rim]
+    return out
+
+
+def pts_oracle(case: dict, impl: dict) -> List[dict]:
+    """the property on the generated points themselves, independent of the model: faces counter-clockwise about
+    the normal with convex corners, rim points on their circle, no two generated points coincide (faces share
+    exactly the generated points), blocks right-handed (exact)"""
+    import numpy as np
+
+    out: List[dict] = []
+    what = impl.get("what", case["what"])
+
+    def viol(site, msg, observed=None, expected=None):
+        out.append({"site": f"Pts({what}):{site}", "what": msg, "observed": observed, "expected": expected})
+
+    if "build_error" in impl:
+        viol("cannot-be-built", f"a valid placement raises {impl['build_error']}: {impl.get('msg')}")
+        return out
+    pts = [[core.parse_rat(c) for c in v] for v in impl["pts"]]
+    fp = np.array([[float(c) for c in v] for v in pts])
+    size = float(np.max(np.linalg.norm(fp - fp.mean(axis=0), axis=1))) or 1.0
+    if impl.get("hexes"):
+        for bi in range(impl["hexes"]):
+            bad = _bad_corners(pts[8 * bi : 8 * bi + 8])
+            if bad:
+                viol("left-handed-block", f"block {bi}: corner Jacobians not positive at corners {bad}", bad, [])
+                break
+        return out
+    nrm = np.array([float(core.parse_rat(c)) for c in impl["normal"]])
+    for qi, q in enumerate(impl["quads"]):
+        P = fp[q]
+        for i in range(4):
+            a, b, e = P[i], P[(i + 1) % 4], P[(i + 3) % 4]
+            val = float(np.dot(np.cross(b - a, e - a), nrm))
+            if not val > 1e-9 * size * size:
+                viol("face-not-ccw", f"face {qi} {q}: corner {i} is not convex / counter-clockwise about the normal", val, "> 0")
+                return out
+    for a, b, r in impl["rim"]:
+        pa = np.array([float(core.parse_rat(c)) for c in a])
+        pb = np.array([float(core.parse_rat(c)) for c in b])
+        rr = float(core.parse_rat(r))
+        if abs(float(np.linalg.norm(pa - pb)) - rr) > 1e-9 * size:
+            viol("rim-off-circle", "an arc point is not on the intended circle", float(np.linalg.norm(pa - pb)), rr)
+            return out
+    if what != "grid":
+        for i in range(len(fp)):
+            dist = np.linalg.norm(fp[i + 1 :] - fp[i], axis=1) if i + 1 < len(fp) else np.array([1.0])
+            if dist.size and float(dist.min()) < 1e-9 * size:
+                viol("coincident-points", f"generated point {i} coincides with another one: faces would share more than the generated points", float(dist.min()), "> 0")
+                return out
+    return out
+
+
+def pts_compare(case: dict, impl: dict, model: List[str]) -> Optional[str]:
+    import numpy as np
+
+    if "build_error" in impl:
+        return None
+    ans = model[0]
+    if ans == "bad-op":
+        return f"the model rejects a valid request: {impl['req']}"
+    got = np.array([[float(core.parse_rat(x)) for x in pt.split(",")] for pt in ans.split(" ")])
+    want = np.array([[float(core.parse_rat(x)) for x in pt] for pt in impl["pts"]])
+    if got.shape != want.shape:
+        return f"{impl['what']}: implementation generates {len(want)} points, model {len(got)}"
+    size = float(np.max(np.linalg.norm(want - want.mean(axis=0), axis=1))) or 1.0
+    scale = max(size, float(np.max(np.abs(want))))
+    err = np.abs(got - want).max(axis=1)
+    i = int(np.argmax(err))
+    if err[i] > 1e-9 * scale:
+        return f"{impl['what']}: point {i}: implementation {want[i].tolist()}, model {got[i].tolist()}"
+    return None
+
+
 class C11(core.Check):
     pid = "C11"
     props_module = "CBV.Props.C11"
@@ -832,7 +1001,9 @@ class C11(core.Check):
         "Frustum with/without mid radius, Elbow, ExtrudedRing, RevolvedRing, Hemisphere; L/T/N joints with 2..7 "
         "branches; Extruded/Revolved/LoftedShape on each of the 12 disk/oval/wrapped/spline sketches; Extruded/"
         "Revolved/TransformedStack on those sketches and on Grid(n,m) with 1..4 tiers) or a chain of 2..4 round shapes "
-        "(chain / expand / contract / fill / hemisphere cap), placed by a random rational quaternion, offset and scale, "
+        "(chain / expand / contract / fill / hemisphere cap), or (kind Pts) one disk / wrapped / oval / grid sketch or one "
+        "Cylinder / SemiCylinder / Frustum / ExtrudedShape whose generated points are compared with the Lean model of the "
+        "point generators, placed by a random rational quaternion, offset and scale, "
         "with random radii, lengths, segment/branch counts, and the documented chop calls with random count / size / "
         "expansion arguments. Non-trivial = the entity was built and assembled; distinct = different class, "
         "parameters or placement."
@@ -853,8 +1024,13 @@ class C11(core.Check):
         "Topology (choppability, single chop per wire family, conformity, orientation of the quad maps, ring/stack/"
         "grid families for every size) is proved in Lean on tables regenerated from the source; handedness, shared "
         "faces in space, on-circle and the interface of chained shapes are checked by exact/tolerance validators on "
-        "the implementation's output for the generated placements only (no theorem about the trigonometric point "
-        "generators); joints are proved for 2..6 branches and tested beyond."
+        "the implementation's output for the generated placements only. Round 6: the point generators of OneCoreDisk, "
+        "QuarterDisk, HalfDisk, FourCoreDisk and of ExtrudedShape / Cylinder / SemiCylinder / Frustum over them are an "
+        "executable model (compared point by point) with theorems for all placements over every ordered field (faces "
+        "counter-clockwise, blocks right-handed, rim on the circle; over R with the source's constants); WrappedDisk, "
+        "Oval and Grid are modelled and compared but have no theorem; Elbow, Hemisphere, rings beyond one segment, "
+        "spline sketches, the cusp shear of the joints and the distinctness of the generated points stay validator-only; "
+        "joints are proved for 2..6 branches and tested beyond."
     )
 
     # ------------------------------------------------------------------ generators
@@ -863,7 +1039,7 @@ class C11(core.Check):
         cases: List[dict] = []
         if tier == "quick":
             plan = {k: 4 for k in kinds}
-            plan.update(ExtrudedShape=4, RevolvedShape=8, LoftedShape=8, ExtrudedStack=8, TransformedStack=6, RevolvedStack=5, Chain=14, NJoint=3, ExtrudedRing=6, RevolvedRing=5)
+            plan.update(ExtrudedShape=4, RevolvedShape=6, LoftedShape=6, ExtrudedStack=6, TransformedStack=6, RevolvedStack=5, Chain=11, NJoint=3, ExtrudedRing=6, RevolvedRing=5)
         else:
             plan = {k: 40 for k in kinds}
             plan.update(ExtrudedShape=150, RevolvedShape=80, LoftedShape=80, ExtrudedStack=80, TransformedStack=60, RevolvedStack=50, Chain=300, NJoint=60)
@@ -969,6 +1145,10 @@ class C11(core.Check):
                         c["p"] = gen_sketch(rng, sk)
                         c["p"].update(keep)
                         cases.append(c)
+        # the point generators alone (model of disk.py / grid.py / cylinder.py / frustum.py / ExtrudedShape)
+        for _ in range(2 if tier == "quick" else 8):
+            for what in PTS_WHAT:
+                cases.append(gen_pts(rng, what))
         # malformed / boundary stream for the model's request parser
         cases.append({"kind": "malformed"})
         rng.shuffle(cases)
@@ -978,6 +1158,8 @@ class C11(core.Check):
     def run_impl(self, case: dict) -> Any:
         if case["kind"] == "malformed":
             return {"malformed": True}
+        if case["kind"] == "Pts":
+            return run_pts(case)
         import numpy as np
 
         import classy_blocks as cb
@@ -1094,7 +1276,13 @@ class C11(core.Check):
                 "c11.rh 0/1,0/1,0/1",
                 "c11.shape Nothing",
                 "c11.nothing",
+                "c11.pts NoDisk 0/1,0/1,0/1 1/1,0/1,0/1 0/1,0/1,1/1 7/10 4/5 9/10",
+                "c11.pts FourCoreDisk 0/1,0/1,0/1 1/1,0/1,0/1 0/1,0/1,2/1 7/10 4/5 9/10",
+                "c11.cyl FourCoreDisk 0/1,0/1,0/1 0/1,0/1,1/1 1/1,0/1,0/1 0/1 7/10 4/5 9/10",
+                "c11.gridpts 0/1 0/1 1/1 1/1 0 2",
             ]
+        if case["kind"] == "Pts":
+            return [impl["req"]] if "req" in impl else []
         if "blocks" not in impl:
             return []
         flat = "[" + ",".join(str(v) for b in impl["blocks"] for v in b) + "]"
@@ -1126,6 +1314,8 @@ class C11(core.Check):
         if case["kind"] == "malformed":
             bad = [a for a in model if a != "bad-op"]
             return f"malformed requests answered: {bad}" if bad else None
+        if case["kind"] == "Pts":
+            return pts_compare(case, impl, model)
         it = iter(model)
         ans = next(it)
         flat = [v for b in impl["blocks"] for v in b]
@@ -1173,9 +1363,13 @@ class C11(core.Check):
     def oracle(self, case: dict, impl: Any) -> List[dict]:
         if case["kind"] == "malformed":
             return []
+        if case["kind"] == "Pts":
+            return pts_oracle(case, impl)
         return oracle(case, impl)
 
     def nontrivial_key(self, case, impl):
+        if case["kind"] == "Pts":
+            return json.dumps(case, sort_keys=True) if "pts" in impl else None
         if case["kind"] == "malformed" or "blocks" not in impl:
             return None
         return json.dumps(case, sort_keys=True)
@@ -1184,6 +1378,8 @@ class C11(core.Check):
         k = case["kind"]
         if k == "malformed":
             return "malformed"
+        if k == "Pts":
+            return "Pts:" + case["what"] + ("" if "pts" in impl else ":not-built")
         tag = k
         if k in LOFTED or k in STACKS:
             tag += ":" + case["p"]["sketch"]
